@@ -20,7 +20,8 @@ CONSTANTS Replicas, HasPrimary, BanTime, MaxOps, Dev
 \*      "no_unban_all"           - all replicas banned is not cleared
 Servers == Replicas \cup (IF HasPrimary THEN {"p"} ELSE {})
 Role(s) == IF s = "p" THEN "primary" ELSE "replica"
-Modes == {"up", "refuse", "hang", "badcheck", "dies_under_statement"}
+\* startup_error: the server answers the startup packet with a FATAL ErrorResponse (PostgreSQL starting up / shutting down)
+Modes == {"up", "refuse", "hang", "badcheck", "dies_under_statement", "startup_error"}
 Requests == {"primary", "replica", "any"}
 
 VARIABLES mode, ban, now, nops,
